@@ -285,6 +285,15 @@ def c04(tier):
     exe = build.build("plain")
     full = tier == "thorough"
     others = {}
+    # D: the bookkeeping design (keys as atom sets, XOR as symmetric difference), every code path of make/unmake/null move,
+    # exhaustively over nested sequences from small-material roots; two known-bad variants document what the invariant protects against
+    design = core.tlc_ok(core.tlc("KeyAlgebra.tla", cfg="KeyAlgebra.cfg", workers=8, timeout=1800, xmx="6g", metadir=os.path.join(ck.work, "md_ka")), "KeyAlgebra")
+    ck.add_states(design["generated"], design["distinct"])
+    bad = {}
+    for v in ("nullep", "rookcap"):
+        r = core.tlc("KeyAlgebra.tla", cfg="KeyAlgebra_%s.cfg" % v, workers=4, timeout=600, metadir=os.path.join(ck.work, "md_ka_" + v))
+        bad[v] = "violates IncrementalEqualsScratch" if "IncrementalEqualsScratch is violated" in r["out"] else "no violation"
+    ck.cov["design"] = dict(KeyAlgebra_states=design["distinct"], bad_variants=bad)
     roots = write_roots(ck, ["roots_general.fen", "roots_special.fen", "roots_lowmat.fen"])
     shards = trace(ck, exe, "transpose", "x", {"roots": roots, "units": 600 if full else 64, "shards": 48 if full else 16})
     shards += trace(ck, exe, "trees", "t", {"roots": roots, "units": 240 if full else 32, "depth": 4, "branch": 3,
@@ -298,7 +307,8 @@ def c04(tier):
                       "identity->key, key->identity, pawn placement->pawn key (per process) and flags any disagreement; drivers revisit positions on "
                       "purpose (transposed move orders, out-and-back manoeuvres, make/unmake trees with null moves, reload from FEN). "
                       "distinct_nontrivial = observations of an identity that had been seen before (revisits), counted by the monitor. "
-                      )
+                      "Design level: KeyAlgebra.tla (keys as atom sets, XOR as symmetric difference; every code path of do/undo/null) exhaustively over nested "
+                      "make/unmake sequences of depth <= 3 from castling, promotion, capture and en-passant roots")
     ck.cov["monitor_counters"] = cnt
     ck.sample(dict(direction="code->spec", lines=[json.loads(l) for l in open(shards[0]).readlines()[:3]]))
     ck.assumptions += ["64-bit collision odds are ignored (a different position with the same key is reported)", "keys are per process"]
